@@ -68,6 +68,8 @@ pub struct ChunkyBuf<'a> {
     pub data: &'a [u8],
     pub pos: usize,
     pub window: usize,
+    /// how many refills may still expose a partial window; `u8::MAX` = unlimited
+    pub partial_left: u8,
 }
 
 impl<'a> ChunkyBuf<'a> {
@@ -76,7 +78,15 @@ impl<'a> ChunkyBuf<'a> {
             data,
             pos: 0,
             window: 0,
+            partial_left: u8::MAX,
         }
+    }
+
+    /// at most `n` solver-placed partial windows (of any size), every other refill exposes all that
+    /// is left: n = 1 is "the stream is split in two at ANY offset"
+    pub fn with_partial_budget(mut self, n: u8) -> Self {
+        self.partial_left = n;
+        self
     }
 }
 
@@ -105,8 +115,15 @@ impl BufRead for ChunkyBuf<'_> {
             return Ok(&[]);
         }
         if self.window == 0 {
-            let w: usize = kani::any();
-            kani::assume(w >= 1 && w <= avail);
+            let mut w = avail;
+            if self.partial_left > 0 {
+                let x: usize = kani::any();
+                kani::assume(x >= 1 && x <= avail);
+                if x < avail && self.partial_left != u8::MAX {
+                    self.partial_left -= 1;
+                }
+                w = x;
+            }
             self.window = w;
         }
         Ok(&self.data[self.pos..self.pos + self.window])
